@@ -5,7 +5,13 @@ import c11
 
 def run(ctx, prefixes):
     q = ctx.tier == "quick"
-    ctx.mc("H2Relay.tla", "MC_H2Relay_Q.cfg" if q else "MC_H2Relay_FC.cfg", timeout=7200)
+    # thorough: two exhaustive runs that between them bound sender frames / receiver control frames by (3, 2) and (2, 3);
+    # (3, 3) has more than 10^8 distinct states and does not finish in an hour
+    if q:
+        ctx.mc("H2Relay.tla", "MC_H2Relay_Q.cfg", timeout=3000)
+    else:
+        ctx.mc("H2Relay.tla", "MC_H2Relay_FC.cfg", timeout=7200)
+        ctx.mc("H2Relay.tla", "MC_H2Relay_FC2.cfg", timeout=7200)
     ok, _, _, _ = ctx.mc("H2Relay.tla", "MC_H2Relay_BugZeroCostHeld.cfg", expect_ok=False)
     if ok:
         raise vlib.Infra("H2Relay mutant BugZeroCostHeld not detected by the model")
